@@ -48,7 +48,7 @@ Inductive case :=
 (** the real GitLabReporter / GithubReporter driven through Submit against a fake API: per round the number of
     review comments posted, deleted, and EVERYTHING the server holds afterwards (other people's, system and general
     notes included: List's filter is part of the model) *)
-| ServerGL (id : N) (diffs : list gl_diff) (budget : nat) (pend : list pcomment)
+| ServerGL (id : N) (diffs : list gl_diff) (budget : nat) (pend : list pcomment) (nreports : nat) (too_many_msg : string)
            (store0 : list gl_note) (rounds : list (nat * nat * list gl_note))
 | ServerGH (id : N) (diffs : list gl_diff) (budget : nat) (pend : list pcomment)
            (store0 : list ecomment) (rounds : list (nat * nat * list ecomment)).
@@ -125,25 +125,26 @@ Definition gl_note_eqb (a b : gl_note) : bool :=
   Bool.eqb (gn_system a) (gn_system b) && Bool.eqb (gn_mine a) (gn_mine b) && opos_eqb (gn_pos a) (gn_pos b) &&
   String.eqb (gn_body a) (gn_body b).
 
-Fixpoint check_server {E} (eqb : E -> E -> bool) (pf : platform E pcomment) (store : list E) (pend : list pcomment)
-         (rounds : list (nat * nat * list E)) : list string :=
+Fixpoint check_server {E} (eqb : E -> E -> bool) (run : list E -> list pcomment -> list E * log E pcomment)
+         (store : list E) (pend : list pcomment) (rounds : list (nat * nat * list E)) : list string :=
   match rounds with
   | [] => []
   | (posts, dels, after) :: rest =>
-      let '(store', lg) := step pf store pend in
+      let '(store', lg) := run store pend in
       (if Nat.eqb (List.length (stored (l_created lg))) posts then [] else ["server-posts"]) ++
       (if Nat.eqb (List.length (l_deleted lg)) dels then [] else ["server-deletes"]) ++
       (if list_eqb eqb store' after then [] else ["server-store"]) ++
-      check_server eqb pf store' pend rest
+      check_server eqb run store' pend rest
   end.
 
 Definition check (c : case) : N * list string :=
   match c with
   | Rounds id cfg rounds => (id, flat_map (check_round cfg) rounds)
   | Diff id diff parsed queries gh gl => (id, check_diff diff parsed queries gh gl)
-  | ServerGL id diffs budget pend store0 rounds => (id, check_server gl_note_eqb (gitlab_srv diffs budget) store0 pend rounds)
+  | ServerGL id diffs budget pend nrep msg store0 rounds =>
+      (id, check_server gl_note_eqb (gl_run diffs budget nrep msg) store0 pend rounds)
   | ServerGH id diffs budget pend store0 rounds =>
-      (id, check_server ecomment_eqb (github_srv (map (fun d => (gd_new_path d, gd_diff d)) diffs) budget) store0 pend rounds)
+      (id, check_server ecomment_eqb (step (github_srv (map (fun d => (gd_new_path d, gd_diff d)) diffs) budget)) store0 pend rounds)
   end.
 
 Fixpoint mismatches (cs : list case) : list (N * string) :=
